@@ -1151,7 +1151,11 @@ class Process(StateMachine, persistence.Savable, metaclass=ProcessStateMachineMe
         """Carry out the pause procedure, optionally transitioning to the next state first"""
         try:
             if next_state is not None:
+                pausing = self._pausing
                 self.transition_to(next_state)
+                if pausing is not None and self._pausing is not pausing:
+                    # Played during the transition (e.g. by a listener): not going to pause after all
+                    return False
 
             if state_msg is None:
                 msg_text = ''
